@@ -1096,3 +1096,42 @@ def rule_fallback_locations(ctx, prop):
                           f"$HOME/.config/stylua locations are never tried", f.loc(), cfg)
         rep.floor("paths of search_config_locations that give up", n, 1, cfg)
     return rep
+
+
+def rule_cache_writers(ctx, prop):
+    from paths import access_path
+    """the per-directory memo holds what the upward search found for that directory - nothing per-file"""
+    rep = Report(prop, "R-CFG(j)", "ConfigResolver::config_cache is written only by find_config_file, with the outcome of the "
+                                   "stylua.toml search for that directory (never with a per-file result such as .editorconfig's)")
+    for cfg, prog in ctx.programs.items():
+        prog = _view(prog)
+        n = 0
+        for f in prog.fns("stylua"):
+            if not f.path.startswith("config::"):
+                continue
+            for b, t in f.calls():
+                if not re.search(r"HashMap(::)?<.*>::(insert|entry|extend|get_mut|remove|clear|retain)$", callee(t)):
+                    continue
+                if not t["args"]:
+                    continue
+                root, steps = access_path(f, t["args"][0])
+                if not any(st[0] == "f" and st[1] == "config_cache" for st in steps):
+                    continue
+                n += 1
+                in_search = re.search(r"ConfigResolver::<'_>::find_config_file$", f.path) is not None
+                vals = set()
+                for a in t["args"][1:]:
+                    vals |= _deep_calls(f, a) if not is_const(a) else set()
+                per_file = sorted(c for c in vals if re.search(r"editorconfig::parse$|read_to_string$|stdin", c))
+                ok = in_search and not per_file
+                rep.inst(f"{f.key} config_cache.{callee(t).split('::')[-1]} by the directory search", {"value_from": sorted(c.split('::')[-1] for c in vals)[:6]},
+                         cfg, ok=ok)
+                if not ok:
+                    why = f"a value derived through {[c.split('::')[-1] for c in per_file]}" if per_file else f"outside find_config_file (in {f.path})"
+                    rep.violation(f"{f.key} config-cache-written {'per-file-value' if per_file else 'outside-search'}",
+                                  f"config_cache (the per-directory memo that find_config_file consults first, also while walking "
+                                  f"up from sub-directories) is written {why}: a result that holds for one file is served to its "
+                                  f"siblings and to files below, which are then formatted with another file's configuration",
+                                  f.loc(t["sp"]), cfg)
+        rep.floor("writes to config_cache", n, 1, cfg)
+    return rep
